@@ -283,7 +283,7 @@ def _proj_segment_cases(ctx):
                 got = run([ax, ay, bx, by], qx, qy)
             except orders.Unsupported as ex:
                 raise shape_error('proj_segment not interpretable: %s' % ex, f.loc())
-            except (ZeroDivisionError, IndexError, TypeError, ValueError, orders.Raised) as ex:
+            except orders.PROGRAM_ERRORS as ex:
                 got = '%s: %s' % (type(ex).__name__, ex)
             slack = 64 * math.ulp(max(1.0, abs(ax), abs(ay)))       # (coordinates of 7e6 carry 1e-9 of rounding each: 6e-8 of slack there, 1.4e-14 near the origin)
             if dx != 0.0 and abs(dy) > abs(dx):
@@ -772,7 +772,7 @@ def rule_M(ctx):
             singles = [run(P(q_[0], q_[1], 12.5 + dz * k_), ref) for k_, q_ in enumerate(qs)]
         except orders.Unsupported as ex:
             raise shape_error('mapOnTrack not interpretable: %s' % ex, g.loc())
-        except (IndexError, KeyError, TypeError, AttributeError, ZeroDivisionError, ValueError, orders.Raised) as ex:
+        except orders.PROGRAM_ERRORS as ex:
             bad = bad or {'reference polyline': lname, 'vertices': [list(p_) for p_ in pts], 'queries': [list(q_) for q_ in qs],
                           'exception': '%s: %s' % (type(ex).__name__, str(ex)[:200])}
             continue
@@ -814,7 +814,7 @@ def rule_M(ctx):
                 second = [run(P(*q_), ref) for q_ in qs]
             except orders.Unsupported as ex:
                 raise shape_error('mapOnTrack not interpretable: %s' % ex, g.loc())
-            except (IndexError, KeyError, TypeError, AttributeError, ZeroDivisionError, ValueError, orders.Raised) as ex:
+            except orders.PROGRAM_ERRORS as ex:
                 second = [('%s: %s' % (type(ex).__name__, str(ex)[:120]), None, None)] * len(qs)
             for k, q_ in enumerate(qs):
                 n_cases += 1
@@ -881,7 +881,7 @@ def rule_G(ctx):
                                                                                                                                'returned': list(p_) if isinstance(p_, (list, tuple)) else repr(p_), 'foot': [wx, wy]}))
     except orders.Unsupported as ex:
         raise shape_error('line helpers not interpretable: %s' % ex, fc.loc())
-    except (ZeroDivisionError, IndexError, TypeError, ValueError, KeyError, AttributeError, orders.Raised) as ex:
+    except orders.PROGRAM_ERRORS as ex:
         bad.setdefault('fails', (fc, 'the line helpers do not fail on non-degenerate segments', {'exception': '%s: %s' % (type(ex).__name__, str(ex)[:200])}))
     for k, (f_, desc, wit) in sorted(bad.items()):
         ctx.violation('C20.G', f_, desc, wit, node=f_.node, key='helpers:' + k)
